@@ -316,7 +316,28 @@ def run(ctx: Ctx) -> int:
                     if isinstance(a, (ast.stmt,)):
                         break
                 ctx.oblige("C04.b", ok, node, "the parser's default_env is consulted only when env is None (an explicit env=False switches the environment off)" if ok else "default_env is consulted without `env is None`: an explicit env=False no longer keeps the environment out of the fold", fn=fn)
-    ctx.floor("C04.b-default-env-uses", n_env, 2)
+    # ... and the tri-state is resolved before it is handed to the subcommand level: the subcommand parsers are asked
+    # with the resolved value (their own environment variables are read only under a true `env`)
+    pc_ = ctx.func("_core:ArgumentParser._parse_common")
+    gpc = ctx.cfg(pc_)
+    hs = [c for c in calls_in(pc_) if call_leaf(c) == "handle_subcommands" and any(k.arg == "env" and isinstance(k.value, ast.Name) and k.value.id == "env" for k in c.keywords)]
+    ctx.need(hs, "_parse_common: handle_subcommands(..., env=env, ...)")
+    resolves = []
+    for s_ in walk_local(pc_):
+        if isinstance(s_, ast.Assign) and len(s_.targets) == 1 and isinstance(s_.targets[0], ast.Name) and s_.targets[0].id == "env":
+            from .util import guard_atoms as _gat
+
+            atoms = {(ast.unparse(t), pol) for t, pol in _gat(s_, stop=pc_)}
+            truthy = (isinstance(s_.value, ast.Constant) and s_.value.value is True) or "_default_env" in ast.unparse(s_.value)
+            if truthy and (("env is None", True) in atoms or "env is None" in ast.unparse(s_.value)) and (("self._default_env", True) in atoms or "_default_env" in ast.unparse(s_.value)):
+                resolves.append(s_)
+    callee_resolves = False
+    for ref2 in ("_actions:_ActionSubCommands.handle_subcommands", "_actions:_ActionSubCommands.get_subcommands"):
+        if ctx.repo.has_func(ref2) and any(isinstance(n_, ast.Attribute) and n_.attr in ("_default_env", "default_env") for n_ in ast.walk(ctx.func(ref2))):
+            callee_resolves = True
+    ok = callee_resolves or (bool(resolves) and all(gpc.can_reach(gpc.cn(resolves), gpc.cn(h), exclude_labels={"e"}) and not gpc.can_reach(gpc.cn(h), gpc.cn(resolves), exclude_labels={"e"}) for h in hs))
+    ctx.oblige("C04.b", ok, hs[0], "`env` handed to the subcommand level is the resolved value (None + default_env -> True)" if ok else "`env` reaches handle_subcommands unresolved: with default_env on and no explicit env=True, parse_object / parse_string / parse_path fill the chosen subcommand's keys without its environment variables (APP_FIT__*), while the top-level keys and parse_args do read theirs", fn=pc_, construct="env resolved before the subcommand level")
+    ctx.floor("C04.b-default-env-uses", n_env, 1)
     # a config given on the command line / in the environment is merged as a whole: it is parsed with
     # every subcommand section kept, without applying links, and with the previous config published
     ac = ctx.func("_actions:ActionConfigFile.apply_config")
